@@ -142,6 +142,7 @@ def check(ctx: Ctx) -> None:
 
     # ---- C13.c termination
     with ctx.obligation("C13.c", "terminates") as ob:
+        ob.require("load_paths" in dir(), "C13.c needs the paths of Unserializer.load computed by C13.b (which could not be analysed)")
         NUM2FUNC = ("sym", "self.num2func")
         niter = neof = 0
         read_vars: set[str] = set()
